@@ -124,3 +124,21 @@ Proof.
   intros H1 H2 H3 H4 Hn _ c Hr. exact (@take_data_bounded_sec n Hn p H1 H2 H3 H4 c Hr).
 Qed.
 Print Assumptions take_data_bounded.
+
+(** not vacuous, and the bound is attained: the fully nested run of take(2) under a one-Pull sink
+    is conformant with [one_pull = true]; the sink's third Pull (after the 2nd datum) is swallowed *)
+Module TakeBoundSanity.
+  Definition p1 : mparams :=
+    {| nsinks := 1; late_ok := false; pullable := false; one_pull := true;
+       resub := false; no_nest := false; c14 := false |}.
+  Definition script : list move :=
+    [MIn (ISub 0 0); MIn (IDn 0 DH); MIn (IUp 0 UP); MIn (IDn 0 (DD (VN 1)));
+     MIn (IUp 0 UP); MIn (IDn 0 (DD (VN 2))); MIn (IUp 0 UP);
+     MRet; MRet; MRet; MRet; MRet; MRet; MRet; MRet].
+  Example script_enabled : all_enabled p1 g_std (cfg0 (take_op 2)) script = true.
+  Proof. vm_compute. reflexivity. Qed.
+  Example script_end :
+    let c := run p1 (take_op 2) script in
+    stack c = [] /\ pin (trace c) = 3 /\ pout (trace c) = 2 /\ dout (trace c) = 2.
+  Proof. vm_compute. repeat split; reflexivity. Qed.
+End TakeBoundSanity.
